@@ -77,11 +77,12 @@ using WObj = trompeloeil::deathwatched<MWb>;
 using E = std::unique_ptr<trompeloeil::expectation>;
 
 enum { S_A0 = 0, S_Q1 = 1, S_Q2 = 2, S_D = 3, S_Q3 = 4, S_FIRST_CREATED = 5 };
-enum { NOPS = 18, MAXT = 3, MAXOPS = 2 };
+enum { NOPS = 20, MAXT = 3, MAXOPS = 2 };
 static const char* OPN[NOPS] = {"call m.f(1)", "call m.f(0)", "call m.g(1)", "create REQUIRE_CALL(m,f(1))", "create+release ALLOW_CALL(m,f(_))",
   "create REQUIRE_CALL(m,g(_)).IN_SEQUENCE(s).TIMES(2)", "create REQUIRE_CALL(m,g(_)).TIMES(2).IN_SEQUENCE(s)", "create REQUIRE_CALL(m,g(_)).IN_SEQUENCE(s,s2)",
   "release Q1", "release A0", "Q2.is_satisfied();Q2.is_saturated()", "s.is_completed()", "delete w", "release D", "destroy m2",
-  "create REQUIRE_CALL(m,g(_)).IN_SEQUENCE(s3).TIMES(AT_MOST(2))", "s3.is_completed()", "release Q3 (expectation on m2)"};
+  "create REQUIRE_CALL(m,g(_)).IN_SEQUENCE(s3).TIMES(AT_MOST(2))", "s3.is_completed()", "release Q3 (expectation on m2)",
+  "create REQUIRE_DESTRUCTION(*w).IN_SEQUENCE(s3)", "D.is_satisfied();D.is_saturated()"};
 
 struct Program { int nt; int nops[MAXT]; int op[MAXT][MAXOPS]; };
 static std::string prog_str(const Program& p) {
@@ -168,6 +169,8 @@ static ExecResult execute(const Program& p, const std::vector<int>& choices) {
         case 15: slot[cs] = NAMED_REQUIRE_CALL(*m, g(trompeloeil::_)).IN_SEQUENCE(*s3).TIMES(AT_MOST(2)).RETURN(v); r = "ok"; break;
         case 16: r = std::string("c:") + (s3->is_completed() ? '1' : '0'); break;
         case 17: slot[S_Q3].reset(); r = "rel:" + take_reports(t); break;
+        case 18: slot[cs] = NAMED_REQUIRE_DESTRUCTION(*w).IN_SEQUENCE(*s3); r = "ok"; break;
+        case 19: { bool a = slot[S_D]->is_satisfied(); bool b = slot[S_D]->is_saturated(); r = std::string("q:") + (a ? '1' : '0') + (b ? '1' : '0'); break; }
       }
       R.res[t].push_back(r);
     }
@@ -203,7 +206,7 @@ static std::string result_key(const Program& p, const ExecResult& r) {
 // model side: atomic steps of every operation, all program-order-respecting interleavings
 // -------------------------------------------------------------------------------------------------
 struct Micro { int kind; int a, b, c; int d = 0; Micro(int k, int a_, int b_, int c_, int d_ = 0) : kind(k), a(a_), b(b_), c(c_), d(d_) {} };  // kinds below
-enum { MI_CALL, MI_CREATE_HOOK, MI_BEGIN_REG, MI_REG, MI_BOUNDS, MI_HOOK, MI_RELEASE, MI_QSAT, MI_QSATUR, MI_QCOMP, MI_DELETE_W, MI_DECOM_ACT, MI_DECOM_SAT };
+enum { MI_MONITOR = 100, MI_CALL = 0, MI_CREATE_HOOK, MI_BEGIN_REG, MI_REG, MI_BOUNDS, MI_HOOK, MI_RELEASE, MI_QSAT, MI_QSATUR, MI_QCOMP, MI_DELETE_W, MI_DECOM_ACT, MI_DECOM_SAT };
 
 static std::vector<Micro> micro_of(int op, int cs) {
   switch (op) {
@@ -225,6 +228,8 @@ static std::vector<Micro> micro_of(int op, int cs) {
     case 15: return {{MI_BEGIN_REG, cs, 7, 1, 2 /*sequence s3*/}, {MI_BOUNDS, cs, 0, 2}, {MI_HOOK, cs, 0, 0}};
     case 16: return {{MI_QCOMP, 2, 0, 0}};
     case 17: return {{MI_RELEASE, S_Q3, 0, 0}};
+    case 18: return {{MI_MONITOR, cs, 0, 0}, {MI_REG, cs, 2, 0}};
+    case 19: return {{MI_QSAT, S_D, 0, 0}, {MI_QSATUR, S_D, 0, 0}};
   }
   return {};
 }
@@ -264,11 +269,12 @@ static std::string apply_micro(Model& md, const Micro& mi, std::string& acc) {
     case MI_CREATE_HOOK: { const Shape& sh = g_shapes[mi.b]; int lo, hi; Op d; memset(&d, 0, sizeof d); Model::bounds_of(sh, d, lo, hi); md.micro_begin(mi.a, mi.b, 0, 1, lo, hi); md.micro_hook(mi.a); acc = "ok"; break; }
     case MI_BEGIN_REG: md.micro_begin(mi.a, mi.b, 0, 0, mi.c, mi.c); md.micro_register(mi.a, mi.d); acc = "ok"; break;
     case MI_REG: md.micro_register(mi.a, mi.b); break;
+    case MI_MONITOR: md.micro_begin(mi.a, 3, 0, 0, 1, 1); md.micro_hook(mi.a); acc = "ok"; break;  // a second requirement on the watched object w
     case MI_BOUNDS: md.micro_bounds(mi.a, mi.b, mi.c); break;
     case MI_HOOK: md.micro_hook(mi.a); break;
     case MI_RELEASE: { Op op; memset(&op, 0, sizeof op); op.kind = OP_RELEASE; op.slot = (int8_t)mi.a; Outcome o = md.step(op); acc += (acc.empty() ? "rel:" : " rel:") + reps_str(o); break; }
     case MI_QSAT: acc = std::string("q:") + (md.satisfied(md.st.e[mi.a]) ? '1' : '0'); break;
-    case MI_QSATUR: { auto& e = md.st.e[mi.a]; acc += (e.hi != INF && e.count == e.hi) ? '1' : '0'; break; }
+    case MI_QSATUR: { auto& e = md.st.e[mi.a]; acc += (e.is_monitor ? (bool)e.died : (e.hi != INF && e.count == e.hi)) ? '1' : '0'; break; }
     case MI_QCOMP: { Outcome o; md.observe(o); acc = std::string("c:") + o.qseq[(size_t)mi.a]; break; }
     case MI_DELETE_W: { Op op; memset(&op, 0, sizeof op); op.kind = OP_DELETE_WATCHED; op.obj = 0; Outcome o = md.step(op); acc = "del:" + reps_str(o); break; }
     case MI_DECOM_ACT: { Outcome o; md.micro_decommission(mi.a, mi.b, false, o); acc = "dm:" + reps_str(o); break; }
@@ -360,6 +366,8 @@ static bool valid_program(const Program& p) {
   int cnt[NOPS] = {0};
   for (int t = 0; t < p.nt; ++t) for (int j = 0; j < p.nops[t]; ++j) cnt[p.op[t][j]]++;
   for (int d : {8, 9, 12, 13, 14, 17}) if (cnt[d] > 1) return false;  // an object is destroyed at most once (caller obligation)
+  if (cnt[19] && cnt[13]) return false;                               // D is queried directly: it must not be released concurrently
+  if (cnt[18] && cnt[12]) return false;                               // a requirement is not placed on an object that another operation of the program destroys
   return true;
 }
 static std::vector<Program> programs_of(const std::string& shape, const std::vector<int>& ops, long* filtered) {
